@@ -61,3 +61,22 @@ package gff
 //@   requires 0 <= index && index < len(f)
 //@   loop 1 invariant 0 <= idx && idx <= len(c) && fresh(a)
 //@   loop 1 writes fresh
+
+// ---- writer (C02): reported byte count == bytes accepted by the underlying writer ----
+//@ func (*Writer).Write
+//@   property C02
+//@   requires w != nil && w.w != nil && f != nil && w.Width > 0
+//@   requires (typeis(f, *Feature) || typeis(f, *Region)) ==> ref(f) != 0
+//@   ensures [bytes] err == nil ==> n == emitted(w.w) - old(emitted(w.w))
+//@   assigns w.header, emitted(w.w), fresh
+
+//@ func (*Writer).WriteMetaData
+//@   property C02
+//@   requires w != nil && w.w != nil && w.Width > 0
+//@   requires (typeis(d, *Feature) || typeis(d, *Region)) ==> ref(d) != 0
+//@   ensures [bytes] err == nil ==> n == emitted(w.w) - old(emitted(w.w))
+
+//@ func (*Writer).WriteComment
+//@   property C02
+//@   requires w != nil && w.w != nil
+//@   ensures [bytes] err == nil ==> n == emitted(w.w) - old(emitted(w.w))
